@@ -178,7 +178,8 @@ def check_case(ctx, case):
     return probs
 
 
-SPECIAL = [('j0', [1.3], 0), ('y0', [1.3], 0), ('j1', [0.7], 0), ('y1', [2.1], 0), ('jn', [2, 1.9], 1), ('yn', [2, 1.9], 1),
+SPECIAL = [('jn', [0, 1.9], 1), ('yn', [0, 1.9], 1), ('jn', [1, 0.8], 1), ('yn', [1, 2.4], 1), ('jn', [3, 2.9], 1), ('yn', [3, 2.9], 1),
+           ('iv', [0.0, 1.2], 1), ('ive', [0.0, 1.2], 1), ('j0', [1.3], 0), ('y0', [1.3], 0), ('j1', [0.7], 0), ('y1', [2.1], 0), ('jn', [2, 1.9], 1), ('yn', [2, 1.9], 1),
            ('i0', [0.8], 0), ('i1', [0.8], 0), ('iv', [1.5, 1.2], 1), ('ive', [1.5, 1.2], 1),
            ('beta', [1.5, 2.5], 0), ('beta', [1.5, 2.5], 1), ('betaln', [1.5, 2.5], 0), ('betainc', [1.5, 2.5, 0.4], 2),
            ('polygamma', [1, 1.7], 1), ('psi', [1.7], 0), ('digamma', [2.3], 0), ('gamma', [2.6], 0), ('gammaln', [2.6], 0),
@@ -189,6 +190,7 @@ SPECIAL = [('j0', [1.3], 0), ('y0', [1.3], 0), ('j1', [0.7], 0), ('y1', [2.1], 0
 def all_cases():
     cases = [{'kind': 'basic'}]
     cases += [{'kind': 'tag', 'tag': t} for t in TAGS + UNKNOWN]
+    cases += [{'kind': 'tag', 'tag': t} for t in TAGS]
     cases += [{'kind': 'eps3', 't': list(t)} for t in itertools.product(range(5), repeat=3)]
     cases += [{'kind': 'eps4', 't': list(t)} for t in itertools.product(range(5), repeat=4)]
     for n in range(7):
